@@ -455,6 +455,10 @@ class Layout:
             s = s + c + " "
         return s
 
+    # '#' comments whose line ends in a dash: only the check that knows the
+    # open finding about them (C05) switches these on
+    dash_hash = False
+
     def render(self, toks):
         """Returns text; sets start/end/line on each token."""
         r = self.rng
@@ -500,7 +504,9 @@ class Layout:
                 s += self.nl
             if self.hash_comments and r.random() < 0.1:
                 s = r.choice([" # note = 1", " # see /* there",
-                              " # a */ b", " #"]) + s
+                              " # a */ b", " #"] + (
+                                  [" # ----", " # part 1 -"]
+                                  if Layout.dash_hash else [])) + s
             elif self.comments and r.random() < 0.1:
                 s += "/* next */" + self.nl
             return s + " " * (self.indent * b.depth)
